@@ -89,6 +89,8 @@ struct World {
   int cur_run;
   std::map<int, bool> ask_full, run_full, run_or;   // discovery: did -> asked full; run -> flag used / OR of asks served
   std::map<int, int> disc_done;
+  std::set<int> null_ids;                     // requests submitted with a NULL callback
+  bool rj_off;
   vector<int> pending_null;                   // NULL-callback requests not yet taken by a run
   std::map<int, vector<int> > run_nulls;      // run -> NULL-callback requests it took (all waiting at its start)
 };
@@ -239,6 +241,13 @@ static void exec_op(const Op &o) {
   switch (o.kind) {
     case 'P': W->paused = true; W->ctl->Pause(); break;
     case 'R': W->paused = false; W->ctl->Resume(); break;
+    case 's': {   // SendRDMRequest with a NULL on_complete: completes unobserved
+      int id = W->next_id++;
+      W->null_ids.insert(id);
+      W->rj_off = true;   // the harness cannot count what it cannot see complete
+      W->ctl->SendRDMRequest(new RDMGetRequest(UID(2, 2), UID(1, 1), 0, 1, 0, id, NULL, 0), NULL);
+      break;
+    }
     case 'S': {
       int id = W->next_id++;
       ReqCtx *ctx = new ReqCtx;
@@ -303,7 +312,7 @@ static string handle(const string &p) {
   w.discov = a[1] == "1";
   w.paused = w.destroying = false;
   w.next_id = w.next_did = 0; w.open = 0;
-  w.conc = w.ps = w.dup = w.bad = w.rj = w.ddup = 0; w.cur_run = -1;
+  w.conc = w.ps = w.dup = w.bad = w.rj = w.ddup = 0; w.rj_off = false; w.cur_run = -1;
   if (a[2] != "-") {
     vector<string> items = vh::split(a[2], ',');
     for (size_t i = 0; i < items.size(); i++) {
@@ -343,7 +352,8 @@ static string handle(const string &p) {
   for (size_t i = 1; i < w.accepted_done.size(); i++)
     if (!(w.accepted_done[i - 1] < w.accepted_done[i])) sorted = false;
   unsigned lost = 0;
-  for (int id = 0; id < w.next_id; id++) if (!w.completions.count(id) || w.completions[id] == 0) lost++;
+  for (int id = 0; id < w.next_id; id++)
+    if (!w.null_ids.count(id) && (!w.completions.count(id) || w.completions[id] == 0)) lost++;
   // discovery coalescing: a run that served requests was full iff one of them asked for full;
   // no discovery callback ran twice
   unsigned dv = w.ddup;
@@ -352,7 +362,7 @@ static string handle(const string &p) {
   std::ostringstream o;
   o << "t=" << join(traces, "/", "") << ";i=" << join(ints, "/", "") << ";conc=" << w.conc
     << ";ps=" << w.ps << ";dup=" << w.dup << ";ooo=" << (sorted ? 0 : 1) << ";bad=" << w.bad
-    << ";lost=" << lost << ";rj=" << w.rj << ";dv=" << dv
+    << ";lost=" << lost << ";rj=" << (w.rj_off ? 0 : w.rj) << ";dv=" << dv
     << ";comp=" << join(w.comps, ",", ".");
   W = NULL;
   return o.str();
